@@ -1,9 +1,662 @@
-/- C03 — executable model (core Lean only).  Stub. -/
+/-
+C03 — model of the grading calculator: the twelve relations of `grading/relations.py` (as they are
+after the repairs recorded in findings/C03.json), `Chop.__post_init__ / calculate / invert`
+(`grading/chop.py`) and `Grading.add_chop / inverted` (`grading/grading.py`).  Core Lean only.
+
+How the code is mirrored
+* which relation is called when (`Chop.calculate`'s closure loop over the functions found by
+  introspection) is `plan`, run on the relation table *generated from the source* (`CBV.Gen.relations`,
+  in `inspect.getmembers` order);
+* every guard (`_validate_*`, explicit `raise`), every branch on `TOL` and every closed formula is
+  transcribed over exact rationals (`TOL`, `R_MAX` come from the generated tables as the exact
+  rational images of the Python floats, so branch decisions coincide with the float comparison);
+* what the code obtains from `log`, `int()`, `**(1/k)` or `scipy.optimize.brentq` is an *oracle
+  argument* (the value the implementation obtained) that the model accepts only if it satisfies
+  the exact specification of that step (`countOK`, `powCountOK`, `countTOK`, `rootOK`, `powOK`),
+  with explicit tolerances `Tol` (zero in the theorems, float-rounding size in the correspondence run);
+* `searchCount` is an executable exact version of `int(log(...)/log(c)) + 1` (proved to satisfy the
+  strict count specification), used as an independent cross-check of the oracle counts.
+-/
 import CBV.Model.Common
 import CBV.Gen.Tables
 
 namespace CBV.C03
 
-def handle (_op : String) (_args : List String) : Option String := none
+/-! ### blockMesh's geometric progression (specification level) -/
+
+/-- `1 + r + … + r^(n-1)` -/
+def geomSum (r : Rat) : Nat → Rat
+  | 0 => 0
+  | n + 1 => geomSum r n + r ^ n
+
+/-- closed form of `geomSum`, used wherever the model has to *evaluate* (equal by `gsum_eq_geomSum`) -/
+def gsum (r : Rat) (n : Nat) : Rat := if r = 1 then (n : Rat) else (1 - r ^ n) / (1 - r)
+
+/-- first cell blockMesh lays out on an edge of length `L` for `n` cells with cell-to-cell ratio `r` -/
+def firstCell (L : Rat) (n : Nat) (r : Rat) : Rat := L / geomSum r n
+
+/-- cell number `i` (0-based) of that progression -/
+def cell (L : Rat) (n : Nat) (r : Rat) (i : Nat) : Rat := firstCell L n r * r ^ i
+
+def lastCell (L : Rat) (n : Nat) (r : Rat) : Rat := cell L n r (n - 1)
+
+/-! ### constants and small helpers -/
+
+def TOL : Rat := (CBV.Gen.c03TolNum : Rat) / (CBV.Gen.c03TolDen : Rat)
+def RMAX : Rat := (CBV.Gen.c03RmaxNum : Rat) / (CBV.Gen.c03RmaxDen : Rat)
+
+def absR (x : Rat) : Rat := if x < 0 then -x else x
+
+/-- the five quantities of a chop -/
+inductive Q where
+  | count | start | end_ | c2c | total
+  deriving DecidableEq, Repr, Inhabited
+
+def Q.ofString? : String → Option Q
+  | "count" => some .count
+  | "start_size" => some .start
+  | "end_size" => some .end_
+  | "c2c_expansion" => some .c2c
+  | "total_expansion" => some .total
+  | _ => none
+
+def Q.name : Q → String
+  | .count => "count"
+  | .start => "start_size"
+  | .end_ => "end_size"
+  | .c2c => "c2c_expansion"
+  | .total => "total_expansion"
+
+/-- one relation `get_<out>__<in1>__<in2>` -/
+structure Rel where
+  out : Q
+  in1 : Q
+  in2 : Q
+  deriving DecidableEq, Repr, Inhabited
+
+def Rel.name (r : Rel) : String := s!"{r.out.name}<{r.in1.name}+{r.in2.name}"
+
+/-- the relation table of the source, in the order in which `Chop.calculate` walks it -/
+def relTable : Option (List Rel) :=
+  CBV.Gen.relations.mapM fun (o, a, b) => do
+    let o ← Q.ofString? o
+    let a ← Q.ofString? a
+    let b ← Q.ofString? b
+    some ⟨o, a, b⟩
+
+/-! ### `Chop.calculate`: which relation runs when (depends on the *names* of the known values only) -/
+
+/-- one pass of `for chop_rel in ChopRelation.get_possible_combinations()`: a relation runs when its
+    output is not yet known and both inputs are (values computed earlier in the same pass count) -/
+def roundNames (rels : List Rel) (known : List Q) : List Q × List Rel :=
+  rels.foldl
+    (fun (acc : List Q × List Rel) rel =>
+      if rel.out ∈ acc.1 then acc
+      else if rel.in1 ∈ acc.1 ∧ rel.in2 ∈ acc.1 then (rel.out :: acc.1, acc.2 ++ [rel])
+      else acc)
+    (known, [])
+
+def allFive (known : List Q) : Bool :=
+  [Q.count, Q.total, Q.c2c, Q.start, Q.end_].all (fun q => decide (q ∈ known))
+
+/-- `for _ in range(fuel)`: test for completeness first, then one pass.  Returns the relations in
+    execution order, the number of passes made and whether the loop returned (rather than falling
+    through to `raise ValueError("Could not calculate …")`). -/
+def planLoop (rels : List Rel) : Nat → List Q → List Rel → Nat → List Rel × Nat × Bool
+  | 0, _, acc, rounds => (acc, rounds, false)
+  | fuel + 1, known, acc, rounds =>
+      if allFive known then (acc, rounds, true)
+      else
+        let r := roundNames rels known
+        planLoop rels fuel r.1 (acc ++ r.2) (rounds + 1)
+
+/-- number of iterations of the `for` loop in `Chop.calculate` -/
+def calcRounds : Nat := 12
+
+def plan (known : List Q) : Option (List Rel × Nat × Bool) :=
+  relTable.map fun rels => planLoop rels calcRounds known [] 0
+
+/-! ### errors, oracle, tolerances -/
+
+inductive Err where
+  /-- `ValueError` raised by a guard, an explicit `raise`, or `int(nan)` -/
+  | value
+  /-- `ZeroDivisionError` -/
+  | zeroDiv
+  /-- the numeric step cannot succeed for these inputs (the code fails with an Overflow/ZeroDivision/ValueError) -/
+  | numeric
+  /-- a solver result is needed here and none was supplied (the implementation's solver raised) -/
+  | needs
+  /-- the supplied solver result violates the specification of the step -/
+  | fail (why : String)
+  /-- the generated relation table contains something the model does not know -/
+  | table
+  /-- outside what is modelled (negative ratios: complex / nan arithmetic) -/
+  | unmodelled
+  deriving DecidableEq, Repr
+
+def Err.show : Err → String
+  | .value => "ValueError"
+  | .zeroDiv => "ZeroDivisionError"
+  | .numeric => "Numeric"
+  | .needs => "needs-oracle"
+  | .fail w => "fail:" ++ w
+  | .table => "table"
+  | .unmodelled => "unmodelled"
+
+/-- what the implementation obtained from its numeric solvers -/
+structure Oracle where
+  /-- result of the count relation (`int(…) + 1`, `ceil`) -/
+  count : Option Int := none
+  /-- result of the c2c relation (`brentq`, `**(1/(n-1))`) -/
+  c2c : Option Rat := none
+  /-- witness for `T^(1/(n-1))` (only for `count<total+start`) -/
+  w1 : Option Rat := none
+  /-- witness for `T^(1/(n-2))` (only for `count<total+start`) -/
+  w2 : Option Rat := none
+  deriving Repr
+
+structure Tol where
+  /-- slack of the count specifications, relative to the length -/
+  cnt : Rat := 0
+  /-- residual allowed for roots and powers, relative -/
+  root : Rat := 0
+  deriving Repr
+
+/-! ### specifications of the numeric steps (decidable over ℚ) -/
+
+/-- `n = int(x) + 1` where `x` solves `s·(1 + ρ + … + ρ^(x-1)) = L`:
+    `n-1` cells of first size `s` and ratio `ρ` do not exceed the edge, `n` cells reach it. -/
+def countOK (ε s ρ L : Rat) (n : Nat) : Bool :=
+  decide (1 ≤ n) && decide (s * gsum ρ (n - 1) ≤ L * (1 + ε)) && decide (L * (1 - ε) ≤ s * gsum ρ n)
+
+/-- `n = int(log T / log r) + 1`: `r^(n-1)` has not passed `T`, `r^n` has (both on the side of 1 where `r` is) -/
+def powCountOK (ε r T : Rat) (n : Nat) : Bool :=
+  decide (1 ≤ n) &&
+    ((decide (1 < r) && decide (r ^ (n - 1) ≤ T * (1 + ε)) && decide (T * (1 - ε) ≤ r ^ n)) ||
+     (decide (r < 1) && decide (T * (1 - ε) ≤ r ^ (n - 1)) && decide (r ^ n ≤ T * (1 + ε))))
+
+/-- `c` is a positive root of `first·(1 + c + … + c^(n-1)) = L` -/
+def rootOK (ε first c L : Rat) (n : Nat) : Bool :=
+  decide (0 < c) && decide (absR (first * gsum c n - L) ≤ ε * L)
+
+/-- `c` is the positive `m`-th root of `T` -/
+def powOK (ε c T : Rat) (m : Nat) : Bool :=
+  decide (0 < c) && decide (absR (c ^ m - T) ≤ ε * absR T)
+
+/-- the count obtained by root finding from total expansion `T` and start size `s`:
+    with `n` cells and total expansion `T` the progression starting with `s` reaches the edge,
+    with `n-1` cells it does not exceed it; `w1`, `w2` witness `T^(1/(n-1))`, `T^(1/(n-2))`. -/
+def countTOK (t : Tol) (L s T : Rat) (n : Nat) (w1 w2 : Option Rat) : Bool :=
+  decide (1 ≤ n) &&
+    (if n = 1 then decide (L * (1 - t.cnt) ≤ s)
+     else match w1 with
+       | some w => powOK t.root w T (n - 1) && decide (L * (1 - t.cnt) ≤ s * gsum w n)
+       | none => false) &&
+    (if n ≤ 1 then true
+     else if n = 2 then decide (s ≤ L * (1 + t.cnt))
+     else match w2 with
+       | some w => powOK t.root w T (n - 2) && decide (s * gsum w (n - 1) ≤ L * (1 + t.cnt))
+       | none => false)
+
+/-! ### executable exact count: the smallest `n ≥ 1` with `s·geomSum r n > L` -/
+
+def searchFrom (s r L : Rat) : Nat → Nat → Rat → Rat → Option Nat
+  | 0, _, _, _ => none
+  | fuel + 1, k, acc, pw =>
+      let acc' := acc + s * pw
+      if L < acc' then some (k + 1) else searchFrom s r L fuel (k + 1) acc' (pw * r)
+
+def searchCount (s r L : Rat) (fuel : Nat) : Option Nat := searchFrom s r L fuel 0 0 1
+
+/-- enough fuel for `searchCount` whenever a count exists (`T_C03_search_total`) -/
+def searchFuel (s r L : Rat) : Nat :=
+  if 1 ≤ r then (L / s).floor.toNat + 1
+  else
+    let a := 1 - L * (1 - r) / s
+    if a ≤ 0 then 0 else ((1 / a - 1) / (1 / r - 1)).floor.toNat + 1
+
+/-! ### the twelve relations -/
+
+def guardLen (L : Rat) : Except Err Unit := if L ≤ 0 then .error .value else pure ()
+def guardCountGe1 (n : Nat) : Except Err Unit := if n < 1 then .error .value else pure ()
+def guardSize (s : Rat) : Except Err Unit := if s ≤ 0 then .error .value else pure ()
+def guardRatio (r : Rat) : Except Err Unit := if r = 0 then .error .value else pure ()
+
+/-- takes the count supplied by the oracle when it satisfies `ok` -/
+def oracleCount (o : Oracle) (ok : Nat → Bool) (why : String) : Except Err Nat :=
+  match o.count with
+  | none => .error .needs
+  | some n => if 1 ≤ n ∧ ok n.toNat then pure n.toNat else .error (.fail why)
+
+def oracleC2c (o : Oracle) (ok : Rat → Bool) (why : String) : Except Err Rat :=
+  match o.c2c with
+  | none => .error .needs
+  | some c => if ok c then pure c else .error (.fail why)
+
+/-- `get_start_size__count__c2c_expansion` -/
+def startCountC2c (L : Rat) (n : Nat) (r : Rat) : Except Err Rat := do
+  guardLen L
+  guardCountGe1 n
+  guardRatio r
+  if absR (r - 1) > TOL then
+    if 1 - r ^ n = 0 then .error .zeroDiv else pure (L * (1 - r) / (1 - r ^ n))
+  else pure (L / n)
+
+/-- `get_start_size__end_size__total_expansion` -/
+def startEndTotal (L e T : Rat) : Except Err Rat := do
+  guardLen L
+  guardRatio T
+  pure (e / T)
+
+/-- `get_end_size__start_size__total_expansion` -/
+def endStartTotal (L s T : Rat) : Except Err Rat := do
+  guardLen L
+  guardRatio T
+  pure (s * T)
+
+/-- `get_count__start_size__c2c_expansion`: `int(log(1 - L/s·(1-r)) / log r) + 1`, or `int(L/s) + 1` -/
+def countStartC2c (t : Tol) (o : Oracle) (L s r : Rat) : Except Err Nat := do
+  guardLen L
+  guardSize s
+  guardRatio r
+  if absR (r - 1) > TOL then
+    if r < 0 then .error .value                       -- log of a negative number: nan, int(nan)
+    else
+      let a := 1 - L / s * (1 - r)
+      if a < 0 then .error .value                     -- nan
+      else if a = 0 then .error .numeric              -- -inf
+      else oracleCount o (countOK t.cnt s r L) "count<start_size+c2c_expansion"
+  else oracleCount o (countOK t.cnt s 1 L) "count<start_size+c2c_expansion:uniform"
+
+/-- `get_count__end_size__c2c_expansion`: the same progression counted from the last cell -/
+def countEndC2c (t : Tol) (o : Oracle) (L e r : Rat) : Except Err Nat := do
+  guardLen L
+  guardSize e
+  guardRatio r
+  if absR (r - 1) > TOL then
+    if r < 0 then .error .value
+    else
+      let b := 1 + L / e * (1 - r) / r
+      if b < 0 then .error .value                     -- explicit isnan check
+      else if b = 0 then .error .numeric
+      else oracleCount o (countOK t.cnt e (1 / r) L) "count<end_size+c2c_expansion"
+  else oracleCount o (countOK t.cnt e 1 L) "count<end_size+c2c_expansion:uniform"
+
+/-- `get_count__total_expansion__c2c_expansion`: `int(log T / log r) + 1` -/
+def countTotalC2c (t : Tol) (o : Oracle) (L T r : Rat) : Except Err Nat := do
+  guardLen L
+  guardRatio T
+  guardRatio r
+  if absR (r - 1) ≤ TOL then .error .value
+  else if r < 0 ∨ T < 0 then .error .value            -- nan
+  else if (T - 1) * (r - 1) < 0 then .error .value    -- ratios on opposite sides of 1 (repair)
+  else oracleCount o (powCountOK t.cnt r T) "count<total_expansion+c2c_expansion"
+
+/-- `d_min`: the smaller of first and last cell size -/
+def dMin (T s : Rat) : Rat := if T > 1 then s else s * T
+
+/-- `get_count__total_expansion__start_size`: `ceil(L/d_min)` for `|T-1| < TOL`, else `int(brentq) + 1` -/
+def countTotalStart (t : Tol) (o : Oracle) (L T s : Rat) : Except Err Nat := do
+  guardLen L
+  guardSize s
+  guardRatio T
+  if absR (T - 1) < TOL then oracleCount o (countOK t.cnt (dMin T s) 1 L) "count<total_expansion+start_size:uniform"
+  else if T < 0 then .error .unmodelled
+  else oracleCount o (fun n => countTOK t L s T n o.w1 o.w2) "count<total_expansion+start_size"
+
+/-- `get_c2c_expansion__count__start_size` -/
+def c2cCountStart (t : Tol) (o : Oracle) (L : Rat) (n : Nat) (s : Rat) : Except Err Rat := do
+  guardLen L
+  guardCountGe1 n
+  if ¬(L > s ∧ s > 0) then .error .value
+  else if n = 1 then pure 1
+  else if absR (n * s - L) / L < TOL then pure 1
+  else oracleC2c o (fun c => rootOK t.root s c L n) "c2c_expansion<count+start_size"
+
+/-- `get_c2c_expansion__count__end_size` -/
+def c2cCountEnd (t : Tol) (o : Oracle) (L : Rat) (n : Nat) (e : Rat) : Except Err Rat := do
+  guardLen L
+  guardCountGe1 n
+  guardSize e
+  if absR (n * e - L) / L < TOL then pure 1
+  else if n = 1 then .error .zeroDiv
+  else oracleC2c o (fun c => rootOK t.root e (1 / c) L n) "c2c_expansion<count+end_size"
+
+/-- `get_c2c_expansion__count__total_expansion`: `T ** (1/(n-1))` -/
+def c2cCountTotal (t : Tol) (o : Oracle) (L : Rat) (n : Nat) (T : Rat) : Except Err Rat := do
+  guardLen L
+  if ¬(n > 1) then .error .value
+  else do
+    guardRatio T
+    if T < 0 then .error .unmodelled
+    else oracleC2c o (fun c => powOK t.root c T (n - 1)) "c2c_expansion<count+total_expansion"
+
+/-- `get_total_expansion__count__c2c_expansion` -/
+def totalCountC2c (L : Rat) (n : Nat) (r : Rat) : Except Err Rat := do
+  guardLen L
+  guardCountGe1 n
+  guardRatio r
+  pure (r ^ (n - 1))
+
+/-- `get_total_expansion__start_size__end_size` -/
+def totalStartEnd (L s e : Rat) : Except Err Rat := do
+  guardLen L
+  guardSize s
+  guardSize e
+  pure (e / s)
+
+/-! ### `Chop` -/
+
+/-- the five grading fields of a `Chop` after `__post_init__` / the dictionary `data` of `calculate` -/
+structure Vals where
+  count : Option Nat := none
+  start : Option Rat := none
+  end_ : Option Rat := none
+  c2c : Option Rat := none
+  total : Option Rat := none
+  deriving Repr, DecidableEq
+
+def Vals.known (v : Vals) : List Q :=
+  (if v.count.isSome then [Q.count] else []) ++ (if v.start.isSome then [Q.start] else []) ++
+  (if v.end_.isSome then [Q.end_] else []) ++ (if v.c2c.isSome then [Q.c2c] else []) ++
+  (if v.total.isSome then [Q.total] else [])
+
+/-- `Chop.__post_init__`: `count = max(int(count), 1)`; with fewer than two parameters `c2c_expansion = 1` -/
+def postInit (count : Option Int) (start end_ c2c total : Option Rat) : Vals :=
+  let given := (if count.isSome then 1 else 0) + (if start.isSome then 1 else 0) + (if end_.isSome then 1 else 0)
+    + (if c2c.isSome then 1 else 0) + (if total.isSome then 1 else 0)
+  { count := count.map (fun c => (max c 1).toNat), start := start, end_ := end_,
+    c2c := if given < 2 ∧ c2c.isNone then some 1 else c2c, total := total }
+
+/-- one call `data[output] = function(length, data[input_1], data[input_2])` -/
+def applyRel (t : Tol) (L : Rat) (o : Oracle) (v : Vals) (rel : Rel) : Except Err Vals :=
+  match rel with
+  | ⟨.c2c, .count, .end_⟩ =>
+      match v.count, v.end_ with
+      | some n, some e => (c2cCountEnd t o L n e).map fun c => { v with c2c := some c }
+      | _, _ => .error .table
+  | ⟨.c2c, .count, .start⟩ =>
+      match v.count, v.start with
+      | some n, some s => (c2cCountStart t o L n s).map fun c => { v with c2c := some c }
+      | _, _ => .error .table
+  | ⟨.c2c, .count, .total⟩ =>
+      match v.count, v.total with
+      | some n, some T => (c2cCountTotal t o L n T).map fun c => { v with c2c := some c }
+      | _, _ => .error .table
+  | ⟨.count, .end_, .c2c⟩ =>
+      match v.end_, v.c2c with
+      | some e, some r => (countEndC2c t o L e r).map fun n => { v with count := some n }
+      | _, _ => .error .table
+  | ⟨.count, .start, .c2c⟩ =>
+      match v.start, v.c2c with
+      | some s, some r => (countStartC2c t o L s r).map fun n => { v with count := some n }
+      | _, _ => .error .table
+  | ⟨.count, .total, .c2c⟩ =>
+      match v.total, v.c2c with
+      | some T, some r => (countTotalC2c t o L T r).map fun n => { v with count := some n }
+      | _, _ => .error .table
+  | ⟨.count, .total, .start⟩ =>
+      match v.total, v.start with
+      | some T, some s => (countTotalStart t o L T s).map fun n => { v with count := some n }
+      | _, _ => .error .table
+  | ⟨.end_, .start, .total⟩ =>
+      match v.start, v.total with
+      | some s, some T => (endStartTotal L s T).map fun e => { v with end_ := some e }
+      | _, _ => .error .table
+  | ⟨.start, .count, .c2c⟩ =>
+      match v.count, v.c2c with
+      | some n, some r => (startCountC2c L n r).map fun s => { v with start := some s }
+      | _, _ => .error .table
+  | ⟨.start, .end_, .total⟩ =>
+      match v.end_, v.total with
+      | some e, some T => (startEndTotal L e T).map fun s => { v with start := some s }
+      | _, _ => .error .table
+  | ⟨.total, .count, .c2c⟩ =>
+      match v.count, v.c2c with
+      | some n, some r => (totalCountC2c L n r).map fun T => { v with total := some T }
+      | _, _ => .error .table
+  | ⟨.total, .start, .end_⟩ =>
+      match v.start, v.end_ with
+      | some s, some e => (totalStartEnd L s e).map fun T => { v with total := some T }
+      | _, _ => .error .table
+  | _ => .error .table
+
+/-- the relations of the plan, in order; the first error aborts (and is reported with its position) -/
+def runSteps (t : Tol) (L : Rat) (o : Oracle) : List Rel → Vals → Except (Err × Rel) Vals
+  | [], v => pure v
+  | rel :: rest, v =>
+      match applyRel t L o v rel with
+      | .error e => .error (e, rel)
+      | .ok v' => runSteps t L o rest v'
+
+/-- `Chop.calculate(length)`: the resolved values (`Chop.results`); the method returns
+    `(results.count, results.total)`. -/
+def calculate (t : Tol) (L : Rat) (o : Oracle) (v : Vals) : Except (Err × Option Rel) Vals :=
+  match plan v.known with
+  | none => .error (.table, none)
+  | some (steps, _, done) =>
+      match runSteps t L o steps v with
+      | .error (e, rel) => .error (e, some rel)
+      | .ok v' => if done then pure v' else .error (.value, none)   -- "Could not calculate count and grading …"
+
+/-- `Chop.invert` (on the fields; `1 / 0` raises) -/
+def invert (v : Vals) : Except Err Vals :=
+  if v.c2c = some 0 ∨ v.total = some 0 then .error .zeroDiv
+  else pure { count := v.count, start := v.end_, end_ := v.start,
+              c2c := v.c2c.map (fun c => 1 / c), total := v.total.map (fun T => 1 / T) }
+
+/-! ### `Grading` -/
+
+/-- one division `[length_ratio, count, total_expansion]` -/
+structure Division where
+  ratio : Rat
+  count : Nat
+  total : Rat
+  deriving Repr, DecidableEq
+
+/-- `Grading.add_chop`: guard on the length ratio, calculation on the sub-length, new division appended -/
+def addChop (t : Tol) (L : Rat) (spec : List Division) (ratio : Rat) (o : Oracle) (v : Vals) :
+    Except (Err × Option Rel) (List Division) :=
+  if ¬(0 < ratio ∧ ratio ≤ 1) then .error (.value, none)
+  else
+    match calculate t (L * ratio) o v with
+    | .error e => .error e
+    | .ok res =>
+        match res.count, res.total with
+        | some n, some T => pure (spec ++ [⟨ratio, n, T⟩])
+        | _, _ => .error (.table, none)
+
+/-- `Grading.inverted`: the divisions in reverse order with reciprocal expansion (`1 / 0` raises) -/
+def inverted (spec : List Division) : Except Err (List Division) :=
+  if spec.any (fun d => d.total = 0) then .error .zeroDiv
+  else pure (spec.reverse.map fun d => { d with total := 1 / d.total })
+
+def gradingCount (spec : List Division) : Nat := (spec.map (·.count)).sum
+
+/-! ### line protocol -/
+
+def parseField (s : String) : Option (String × String) :=
+  match s.splitOn ":" with
+  | [k, v] => some (k, v)
+  | _ => none
+
+def parseFields (s : String) : Option (List (String × String)) :=
+  if s = "-" then some [] else (s.splitOn ",").mapM parseField
+
+def optRat (fs : List (String × String)) (k : String) : Option (Option Rat) :=
+  match fs.lookup k with
+  | none => some none
+  | some v => (parseRat? v).map some
+
+def optInt (fs : List (String × String)) (k : String) : Option (Option Int) :=
+  match fs.lookup k with
+  | none => some none
+  | some v => (parseInt? v).map some
+
+/-- raw constructor arguments `count:5,start_size:1/10` → the chop after `__post_init__` -/
+def parseChop (s : String) : Option Vals := do
+  let fs ← parseFields s
+  if fs.any (fun kv => (Q.ofString? kv.1).isNone) then none
+  let c ← optInt fs "count"
+  let st ← optRat fs "start_size"
+  let en ← optRat fs "end_size"
+  let cc ← optRat fs "c2c_expansion"
+  let tt ← optRat fs "total_expansion"
+  some (postInit c st en cc tt)
+
+def parseOracle (s : String) : Option Oracle := do
+  let fs ← parseFields s
+  if fs.any (fun kv => ¬(kv.1 ∈ ["n", "c", "w1", "w2"])) then none
+  some { count := ← optInt fs "n", c2c := ← optRat fs "c", w1 := ← optRat fs "w1", w2 := ← optRat fs "w2" }
+
+def parseTol (s : String) : Option Tol := do
+  let fs ← parseFields s
+  if fs.any (fun kv => ¬(kv.1 ∈ ["cnt", "root"])) then none
+  let c ← optRat fs "cnt"
+  let r ← optRat fs "root"
+  some { cnt := c.getD 0, root := r.getD 0 }
+
+def showOpt (f : α → String) : Option α → String
+  | some a => f a
+  | none => "None"
+
+def showVals (v : Vals) : String :=
+  s!"count:{showOpt toString v.count} start_size:{showOpt showRat v.start} end_size:{showOpt showRat v.end_} " ++
+  s!"c2c_expansion:{showOpt showRat v.c2c} total_expansion:{showOpt showRat v.total}"
+
+def showPlan (steps : List Rel) : String :=
+  if steps.isEmpty then "-" else ";".intercalate (steps.map Rel.name)
+
+/-- `c03.calc L chop oracle tol` → `ok <values> plan:<relations in order> rounds:<k>` |
+    `err <kind> at:<relation|-> plan:…` -/
+def handleCalc (args : List String) : Option String :=
+  match args with
+  | [l, chop, orc, tol] => do
+      let L ← parseRat? l
+      let v ← parseChop chop
+      let o ← parseOracle orc
+      let t ← parseTol tol
+      let p ← plan v.known
+      let tail := s!"plan:{showPlan p.1} rounds:{p.2.1}"
+      match calculate t L o v with
+      | .ok res => some s!"ok {showVals res} {tail}"
+      | .error (e, rel) => some s!"err {e.show} at:{showOpt Rel.name rel} {tail}"
+  | _ => none
+
+/-- `c03.init chop` → the fields after `__post_init__`; `c03.inv chop` → after `invert()` -/
+def handleInit (inv : Bool) (args : List String) : Option String :=
+  match args with
+  | [chop] => do
+      let v ← parseChop chop
+      if inv then
+        match invert v with
+        | .ok w => some ("ok " ++ showVals w)
+        | .error e => some ("err " ++ e.show)
+      else some ("ok " ++ showVals v)
+  | _ => none
+
+def parseDivision (s : String) : Option Division :=
+  match s.splitOn ":" with
+  | [r, n, t] => do some ⟨← parseRat? r, ← parseNat? n, ← parseRat? t⟩
+  | _ => none
+
+def showDivision (d : Division) : String := s!"{showRat d.ratio}:{d.count}:{showRat d.total}"
+
+/-- `c03.ginv d1,d2,…` (`-` for the empty grading) → inverted divisions and the total count -/
+def handleGinv (args : List String) : Option String :=
+  match args with
+  | [spec] => do
+      let ds ← if spec = "-" then some [] else (spec.splitOn ",").mapM parseDivision
+      match inverted ds with
+      | .ok r =>
+          some (s!"ok count:{gradingCount r} " ++ (if r.isEmpty then "-" else ",".intercalate (r.map showDivision)))
+      | .error e => some ("err " ++ e.show)
+  | _ => none
+
+/-- `c03.addchop L ratio sublength chop oracle tol`: the guard of `add_chop`, then the calculation on the
+    sub-length (the float product `L*ratio` is passed in and must be the rounded exact product) -/
+def handleAddChop (args : List String) : Option String :=
+  match args with
+  | [l, ratio, sub, chop, orc, tol] => do
+      let L ← parseRat? l
+      let q ← parseRat? ratio
+      let ls ← parseRat? sub
+      let v ← parseChop chop
+      let o ← parseOracle orc
+      let t ← parseTol tol
+      if ¬(0 < q ∧ q ≤ 1) then some "err ValueError at:ratio"
+      else if absR (ls - L * q) > absR (L * q) / 1000000000000000 then none
+      else
+        match addChop t ls [] 1 o v with
+        | .ok [d] => some s!"ok {showDivision { d with ratio := q }}"
+        | .ok _ => none
+        | .error (e, rel) => some s!"err {e.show} at:{showOpt Rel.name rel}"
+  | _ => none
+
+def parseRelName (s : String) : Option Rel :=
+  match s.splitOn "<" with
+  | [o, ins] =>
+      match ins.splitOn "+" with
+      | [a, b] => do some ⟨← Q.ofString? o, ← Q.ofString? a, ← Q.ofString? b⟩
+      | _ => none
+  | _ => none
+
+def Vals.set (v : Vals) (q : Q) (x : Rat) : Option Vals :=
+  match q with
+  | .count => if x.den = 1 ∧ 0 ≤ x.num then some { v with count := some x.num.toNat } else none
+  | .start => some { v with start := some x }
+  | .end_ => some { v with end_ := some x }
+  | .c2c => some { v with c2c := some x }
+  | .total => some { v with total := some x }
+
+def Vals.get (v : Vals) : Q → Option Rat
+  | .count => v.count.map (fun n => (n : Rat))
+  | .start => v.start
+  | .end_ => v.end_
+  | .c2c => v.c2c
+  | .total => v.total
+
+/-- `c03.rel out<in1+in2 L a b oracle tol`: one direct call of a relation function (must be in the generated table) -/
+def handleRel (args : List String) : Option String :=
+  match args with
+  | [name, l, a, b, orc, tol] => do
+      let rel ← parseRelName name
+      let rels ← relTable
+      if rel ∉ rels then none
+      let L ← parseRat? l
+      let a ← parseRat? a
+      let b ← parseRat? b
+      let o ← parseOracle orc
+      let t ← parseTol tol
+      let v ← (Vals.set {} rel.in1 a).bind (fun v => v.set rel.in2 b)
+      match applyRel t L o v rel with
+      | .ok v' => (v'.get rel.out).map (fun x => "ok " ++ showRat x)
+      | .error e => some ("err " ++ e.show)
+  | _ => none
+
+/-- `c03.count s r L` → the exact count `searchCount` (first cell `s`, ratio `r`, length `L`) -/
+def handleCount (args : List String) : Option String :=
+  match args with
+  | [s, r, l] => do
+      let s ← parseRat? s
+      let r ← parseRat? r
+      let L ← parseRat? l
+      if s ≤ 0 ∨ r ≤ 0 ∨ L ≤ 0 then none
+      else match searchCount s r L (searchFuel s r L) with
+        | some n => some s!"ok {n}"
+        | none => some "none"
+  | _ => none
+
+def handle (op : String) (args : List String) : Option String :=
+  match op with
+  | "c03.calc" => handleCalc args
+  | "c03.init" => handleInit false args
+  | "c03.inv" => handleInit true args
+  | "c03.ginv" => handleGinv args
+  | "c03.addchop" => handleAddChop args
+  | "c03.count" => handleCount args
+  | "c03.rel" => handleRel args
+  | _ => none
 
 end CBV.C03
